@@ -9,7 +9,7 @@ use serde_json::{json, Value};
 use std::io::{BufRead, Read};
 use vph::refdec;
 
-pub const RULE: &str = "frame parameter menu of 12 (rate: fixed code / kHz / Hz / daHz classes; channels 1,2,3,8; depth 8,12,16,20,24,32; length 1,16,17,40): (A) ALL sequences of 1..3 frames written by FlacStreamWriter — each frame must decode from its own bytes alone in the independent decoder's subset mode and FlacStreamReader must return every frame's samples and parameters exactly, for the unsegmented source, every single cut point and 1-byte buffers; all non-subset rate/depth classes must be refused at write; (B) 6 three-frame sequences × ALL placements of ≤3 garbage strings from {00, FF, FF FF, FF F8, FF F9, FF F8 + CRC-8-valid fake header, the first 5 / 9 bytes of a real frame, 37 sync-free bytes} in the 4 gaps × every single cut point of the source (thorough: + every pair of cuts for ≤1 garbage string) and 1-byte buffers: frames returned Ok must be a subsequence of the written frames in order with exact samples/parameters; when no inserted string contains FF F8/FF F9 every frame must be returned and no error may precede the final end of data";
+pub const RULE: &str = "frame parameter menu of 12 (rate: fixed code / kHz / Hz / daHz classes; channels 1,2,3,8; depth 8,12,16,20,24,32; length 1,16,17,40): (A) ALL sequences of 1..3 frames written by FlacStreamWriter — each frame must decode from its own bytes alone in the independent decoder's subset mode and FlacStreamReader must return every frame's samples and parameters exactly, for the unsegmented source, every single cut point and 1-byte buffers; all non-subset rate/depth classes must be refused at write; (C) grammar-built raw frame streams covering every block-size code (incl. both explicit forms), every sample-rate code that is carried in the header, every depth code and every channel-assignment code, fixed and variable blocking, read whole / through 7-byte buffers / with one cut: every frame returned exactly; (D) the writer's own code tables: frames of every common block length (192, 576·2^k, 256·2^k) and 255 / 257 / 65535 / 1 / 15 samples × channels 1..8 × a depth/rate menu × 5 option sets (exhaustive / fast correlation, no mid-side, no LPC, LPC 32) on channel-heterogeneous signals, each followed by a frame with other parameters: decodable from the own header with exact parameters and samples, and returned exactly by FlacStreamReader; (B) 6 three-frame sequences × ALL placements of ≤3 garbage strings from {00, FF, FF FF, FF F8, FF F9, FF F8 + CRC-8-valid fake header, the first 5 / 9 bytes of a real frame, 37 sync-free bytes} in the 4 gaps × every single cut point of the source (thorough: + every pair of cuts for ≤1 garbage string) and 1-byte buffers: frames returned Ok must be a subsequence of the written frames in order with exact samples/parameters; when no inserted string contains FF F8/FF F9 every frame must be returned and no error may precede the final end of data";
 pub const ASSUMPTIONS: &[&str] = &["garbage is drawn from a 9-string alphabet; frames from a 12-entry parameter menu with position-identifying PCM"];
 pub fn bounds(quick: bool) -> Value {
     json!({"clean_sequences": "all of length 1..3 over 12 frame kinds", "garbage_strings_per_stream": 3, "cuts": if quick { "every single cut (≤2 garbage strings), every pair of cuts (≤1 garbage string, first sequence), 1-byte buffers" } else { "every single cut, every pair of cuts (≤2 garbage strings), 1-byte buffers" }})
@@ -193,6 +193,73 @@ fn check_stream(acc: &mut Acc, data: &[u8], want: &[Got], clean: bool, cuts: &[u
     }
 }
 
+
+/// (D) the writer's own code tables: one frame of every common block length (and the explicit forms at their boundaries),
+/// every channel count, a depth menu and 5 option sets (stereo correlation modes, no LPC, high LPC), followed by a
+/// 16-sample frame with other parameters. Returns (bytes, expected frames) or the write error.
+fn table_cases() -> Vec<(usize, u8, u32, u32, usize, u32)> {
+    // (block length, channels, depth, rate, option set, per-channel trait code for encspace::hetero)
+    let mut v = Vec::new();
+    let lens = [192usize, 576, 1152, 2304, 4608, 256, 512, 1024, 2048, 4096, 8192, 16384, 32768, 255, 257, 65535, 1, 15];
+    for (li, &len) in lens.iter().enumerate() {
+        for ch in 1..=8u8 {
+            if len > 4608 && ch > 2 {
+                continue;
+            }
+            for oset in 0..5usize {
+                if ch != 2 && oset > 0 && (oset < 3 || len > 4608) {
+                    continue; // the correlation modes only matter for stereo
+                }
+                let (bps, rate) = [(16u32, 44100u32), (8, 8000), (24, 96000), (12, 22050), (20, 48000), (32, 192000)][(li + ch as usize + oset) % 6];
+                let codes: &[u32] = if ch == 2 { &[0, 5 + 8 * 5, 6 + 8 * 6, 1, 2 + 8 * 3] } else { &[0] };
+                let code = codes[(li + oset) % codes.len()];
+                v.push((len, ch, bps, rate, oset, code));
+            }
+        }
+    }
+    v
+}
+fn table_options(oset: usize) -> Options {
+    let o = Options::default();
+    match oset {
+        0 => o,
+        1 => o.fast_channel_correlation(true),
+        2 => o.mid_side(false),
+        3 => o.max_lpc_order(None).unwrap(),
+        _ => o.max_lpc_order(Some(32)).unwrap().mid_side(false).fast_channel_correlation(true),
+    }
+}
+fn table_case(c: &(usize, u8, u32, u32, usize, u32)) -> Result<(Vec<u8>, Vec<Got>), String> {
+    let &(len, ch, bps, rate, oset, code) = c;
+    let first = crate::encspace::hetero(code, ch as usize, bps, len);
+    let second = ident_pcm(1, 16, 16);
+    guarded(|| -> Result<(Vec<u8>, Vec<Got>), String> {
+        let mut out = Vec::new();
+        let mut w = FlacStreamWriter::new(&mut out, table_options(oset));
+        w.write(rate, ch, bps, &first).map_err(|e| format!("err:{e:?}"))?;
+        w.write(44100, 1, 16, &second).map_err(|e| format!("err:{e:?}"))?;
+        drop(w);
+        Ok((out, vec![Got { samples: first.clone(), rate, ch, bps }, Got { samples: second.clone(), rate: 44100, ch: 1, bps: 16 }]))
+    })
+    .map_err(|p| format!("panic:{p}"))?
+}
+/// the frames must decode from their own headers in the independent decoder with exactly the written parameters and samples
+fn table_own_header(bytes: &[u8], want: &[Got]) -> Result<(), String> {
+    let mut pos = 0;
+    for (i, g) in want.iter().enumerate() {
+        let f = guarded(|| refdec::decode_frame(bytes, pos, None)).map_err(|p| format!("machinery: refdec panic {p}"))?.map_err(|r| format!("frame {i} is not decodable from its own header: {} {}", r.code, r.msg))?;
+        let inter: Vec<i32> = (0..f.block_size as usize).flat_map(|k| f.samples.iter().map(move |c| c[k] as i32)).collect();
+        if f.rate != g.rate || f.channels != g.ch || f.bps as u32 != g.bps || inter != g.samples {
+            return Err(format!("frame {i} describes {} Hz / {} ch / {} bit / {} samples, written {} Hz / {} ch / {} bit / {} samples{}", f.rate, f.channels, f.bps, inter.len(), g.rate, g.ch, g.bps, g.samples.len(), if inter != g.samples && inter.len() == g.samples.len() { " (sample values differ)" } else { "" }));
+        }
+        pos += f.len;
+    }
+    if pos != bytes.len() {
+        return Err(format!("{} trailing bytes after the last frame", bytes.len() - pos));
+    }
+    Ok(())
+}
+
 pub fn run(ctx: &Ctx, acc: &mut Acc) {
     // ---- (A) all clean sequences
     let n = MENU.len();
@@ -253,6 +320,50 @@ pub fn run(ctx: &Ctx, acc: &mut Acc) {
                     }
                 }
                 Err(p) => acc.violation(format!("C16|panic@{}", crate::core::panic_loc(&p)), format!("write(rate {rate}, {bps} bit) panics: {p}"), json!({"kind":"raw-nonsubset","rate":rate,"bps":bps})),
+            }
+        }
+    }
+    // ---- (C) grammar-built frames covering every header code (block-size, sample-rate, depth, channel-assignment tables;
+    // fixed and variable blocking; constant / verbatim / fixed subframes) read as a raw frame stream
+    for (spec, origin, subset) in crate::gspace::header_table_specs() {
+        if !subset || !ctx.mine() {
+            continue;
+        }
+        let b = match vph::fgen::build(&spec) {
+            Ok(b) => b,
+            Err(_) => continue,
+        };
+        acc.states += 1;
+        let want: Vec<Got> = spec.frames.iter().map(|f| Got { samples: crate::codec::interleave(&f.pcm), rate: spec.rate, ch: spec.channels, bps: spec.bps as u32 }).collect();
+        let data = &b.bytes[b.first_frame_offset..];
+        check_stream(acc, data, &want, true, &[], 0, &origin);
+        check_stream(acc, data, &want, true, &[], 7, &origin);
+        check_stream(acc, data, &want, true, &[data.len() / 2], 0, &origin);
+    }
+    // ---- (D) the writer's code tables × option sets
+    for c in table_cases() {
+        if !ctx.mine() {
+            continue;
+        }
+        acc.states += 1;
+        let origin = json!({"table-case": [c.0, c.1, c.2, c.3, c.4, c.5]});
+        match table_case(&c) {
+            Err(e) if e.starts_with("panic:") => {
+                acc.executions += 1;
+                acc.violation(format!("C16|table|{}", crate::codec::err_class(&e)), format!("FlacStreamWriter panics on {} samples x {} ch, {} bit, {} Hz (option set {}): {e}", c.0, c.1, c.2, c.3, c.4), json!({"kind":"raw-table","case":[c.0, c.1, c.2, c.3, c.4, c.5]}));
+            }
+            Err(e) => {
+                // refusing a frame is not forbidden by this property (C15 covers documented values): outcome only
+                acc.executions += 1;
+                acc.outcome(format!("table:refused:{}", crate::codec::err_class(&e)));
+            }
+            Ok((data, want)) => {
+                if let Err(e) = table_own_header(&data, &want) {
+                    acc.executions += 1;
+                    acc.violation("C16|table|frame-not-self-describing".to_string(), format!("{} samples x {} ch, {} bit, {} Hz (option set {}): {e}", c.0, c.1, c.2, c.3, c.4), json!({"kind":"raw-table","case":[c.0, c.1, c.2, c.3, c.4, c.5]}));
+                }
+                check_stream(acc, &data, &want, true, &[], 0, &origin);
+                check_stream(acc, &data, &want, true, &[data.len() / 3], 0, &origin);
             }
         }
     }
@@ -335,6 +446,16 @@ pub fn replay(v: &Value) -> Option<(bool, String)> {
                     Some((bad, format!("{} of {} frames, {errors} errors, subsequence={}", got.len(), want.len(), is_subsequence(&got, &want))))
                 }
             }
+        }
+        "raw-table" => {
+            let a: Vec<u64> = v["case"].as_array()?.iter().map(|x| x.as_u64().unwrap_or(0)).collect();
+            let c = (a[0] as usize, a[1] as u8, a[2] as u32, a[3] as u32, a[4] as usize, a[5] as u32);
+            let r = match table_case(&c) {
+                Err(e) if e.starts_with("panic:") => Err(e),
+                Err(e) => Ok(format!("refused: {e}")),
+                Ok((d, w)) => table_own_header(&d, &w).map(|_| format!("{} bytes", d.len())),
+            };
+            Some((r.is_err(), format!("{r:?}")))
         }
         "raw-write" => {
             let seq: Vec<usize> = v["frames"].as_array()?.iter().map(|x| x.as_u64().unwrap_or(0) as usize).collect();
